@@ -199,6 +199,41 @@ def run(tier):
         if dim == 2 and ("[4*" in line or "[8*" in line) and len(set(bym.values())) > 1:
             v.violation({"key": line, "text": line, "fam": "lea_cross", "mn": "lea"}, "nobase-option-changes-scale4/8", repr(sorted(set(bym.values()))))
     stats.update({"lea_literal_checked": lit, "lea_rewritten_checked": rew})
+    # ---------------- (b2) the same literal / rewritten FORM under the other encoder paths (one-operand jmp/call/push, VEX, SSE, MR/RM,
+    # setcc, BMI2 ...): for an operand M the bytes ModRM.mod/rm + SIB + displacement of `<instruction> M` must be those of `lea r15, M`
+    # under the same options (only ModRM.reg differs). Decoding cannot see a swap that keeps the address.
+    TMPL = ["jmp %s", "call %s", "push qword %s", "vpaddb ymm1, ymm2, %s", "paddb xmm1, %s", "mov rdx, %s", "mov %s, rdx", "inc dword %s", "sete %s", "bextr rax, %s, rbx",
+            "movq %s, xmm1", "prefetcht0 %s", "cmovne rcx, %s", "vmovdqu %s, ymm9", "mulx rax, rbx, %s", "xchg r9, %s"]
+    lealines = sorted(per_line)
+    pickl = lealines if full else rnd.sample(lealines, min(len(lealines), 70))
+    fitems, fmeta = [], []
+    for ll in pickl:
+        M = ll[len("lea r15, "):]
+        for t in (TMPL if full else rnd.sample(TMPL, 6)):
+            for m in enc.COMBOS:
+                if m in per_line[ll]:
+                    fitems.append((m, t % M, 0))
+                    fmeta.append((ll, t, m))
+    fres = common.run_lines(binary, fitems, tag="c11f")
+    form_ok = 0
+    for (ll, t, m), r in zip(fmeta, fres):
+        v.count()
+        L = bytes.fromhex(per_line[ll][m])
+        case = {"key": "%s [%s] vs %s" % (t % ll[len("lea r15, "):], m, ll), "text": t % ll[len("lea r15, "):], "fam": "form_other_class", "combo": m, "mn": t.split()[0]}
+        if "crash" in r:
+            v.violation(case, r["crash"]["sig"], r["crash"]["stderr"][-800:])
+            continue
+        if r["rc"] != 0:
+            v.violation(case, "rejected", None)
+            continue
+        B = bytes.fromhex(r["bytes"])
+        k = len(L) - L.index(0x8d) - 1
+        if len(B) <= k or (B[-k] & 0xC7) != (L[-k] & 0xC7) or B[len(B) - k + 1:] != L[len(L) - k + 1:]:
+            v.violation(case, "operand-form-differs-from-lea:" + ("swap" if ("+rsp" in ll or "+esp" in ll) else "nobase"), "instruction %s lea %s (last %d bytes: ModRM, SIB, displacement)" % (B.hex(), L.hex(), k))
+        else:
+            form_ok += 1
+            v.distinct(("form", ll, t, m))
+    stats["operand_form_vs_lea_checked"] = form_ok
     # ---------------- (c) every other line: identical bytes under all twelve combinations
     cases = isa.gen_int_regs()
     if not full:
